@@ -48,7 +48,10 @@ void Exec::op_edit(Client &c) {
 	} else if (what == "addcols") {
 		int cnt = 1 + modn(op->i("cnt", 2), 3); std::vector<MCol> cols; std::vector<std::vector<std::pair<int, Q>>> nzs;
 		for (int k = 0; k < cnt; k++) { MCol col; col.obj = argq(op, strf("obj%d", k).c_str(), k + 1); col.lo = argn(op, strf("lo%d", k).c_str(), Num(Q(0))); col.up = argn(op, strf("up%d", k).c_str(), Num::pinf()); if (cmp(col.lo, col.up) > 0) std::swap(col.lo, col.up);
-			LP tmp = M; for (auto &cc : cols) tmp.cols.push_back(cc); col.name = unique_name(op->s(strf("name%d", k), "-"), false, tmp, step); cols.push_back(col); nzs.push_back(parse_nz(op->s(strf("nz%d", k)), m)); }
+			LP tmp = M; for (auto &cc : cols) tmp.cols.push_back(cc); std::string wantname = op->s(strf("name%d", k), "-");
+			// "@gen": the very name the library is about to generate for the unnamed entry before this one (x<n+k>), given explicitly - a valid call
+			if (wantname == "@gen") { std::string g = strf("x%d", n + k); wantname = (k > 0 && cols[k - 1].name.empty() && tmp.col_index(g) < 0) ? g : std::string("-"); if (wantname != "-") { col.name = wantname; probe("edit.explicit_name_like_generated"); } }
+			if (col.name.empty()) col.name = unique_name(wantname, false, tmp, step); cols.push_back(col); nzs.push_back(parse_nz(op->s(strf("nz%d", k)), m)); }
 		std::vector<int> ccnt, cbeg, ind; size_t tot = 0; for (auto &z : nzs) tot += z.size();
 		QArr val(tot + 1), obj(cnt), lo(cnt), up(cnt); std::vector<const char *> names; size_t q = 0; bool anynull = false;
 		for (int k = 0; k < cnt; k++) { cbeg.push_back((int)q); ccnt.push_back((int)nzs[k].size()); for (auto &e : nzs[k]) { ind.push_back(e.first); mpq_set(val.at(q++), e.second.get_mpq_t()); }
@@ -71,7 +74,9 @@ void Exec::op_edit(Client &c) {
 		int cnt = 1 + modn(op->i("cnt", 2), 3); std::vector<MRow> rows; std::vector<std::vector<std::pair<int, Q>>> nzs; bool ranged = op->i("ranged", 0) != 0;
 		for (int k = 0; k < cnt; k++) { MRow r; r.rhs = argq(op, strf("rhs%d", k).c_str(), k); r.sense = sense_arg(op, strf("sense%d", k).c_str()); if (!ranged && r.sense == 'R') r.sense = 'E';
 			r.range = argq(op, strf("range%d", k).c_str(), 1); if (r.range < 0) r.range = -r.range; if (r.sense != 'R') r.range = 0;
-			LP tmp = M; for (auto &rr : rows) tmp.rows.push_back(rr); r.name = unique_name(op->s(strf("name%d", k), "-"), true, tmp, step); nzs.push_back(parse_nz(op->s(strf("nz%d", k)), n)); for (auto &e : nzs.back()) r.coef[e.first] = e.second; rows.push_back(r); }
+			LP tmp = M; for (auto &rr : rows) tmp.rows.push_back(rr); std::string wantname = op->s(strf("name%d", k), "-");
+			if (wantname == "@gen") { std::string g = strf("c%d", m + k); wantname = (k > 0 && rows[k - 1].name.empty() && tmp.row_index(g) < 0) ? g : std::string("-"); if (wantname != "-") { r.name = wantname; probe("edit.explicit_name_like_generated"); } }
+			if (r.name.empty()) r.name = unique_name(wantname, true, tmp, step); nzs.push_back(parse_nz(op->s(strf("nz%d", k)), n)); for (auto &e : nzs.back()) r.coef[e.first] = e.second; rows.push_back(r); }
 		std::vector<int> rcnt, rbeg, ind; size_t tot = 0; for (auto &z : nzs) tot += z.size();
 		QArr val(tot + 1), rhs(cnt), rng(cnt); std::vector<char> sense; std::vector<const char *> names; size_t q = 0;
 		for (int k = 0; k < cnt; k++) { rbeg.push_back((int)q); rcnt.push_back((int)nzs[k].size()); for (auto &e : nzs[k]) { ind.push_back(e.first); mpq_set(val.at(q++), e.second.get_mpq_t()); }
